@@ -76,6 +76,7 @@ def scalars(bad_ok=True):
     good = [
         st.builds(lambda s: {"k": "text", "s": s}, st.one_of(gen.safe_text(0, 3), st.sampled_from(["", "ab", "<b>"]))),
         st.builds(lambda s: {"k": "text", "s": s}, gen.safe_text(0, 3)),
+        st.builds(lambda s: {"k": "text", "s": s, "sub": True}, st.sampled_from(["red", "", "a b", "<i>"])),  # str-subclass instances (enum members): kept as they are
         st.builds(lambda v: {"k": "num", "v": v}, st.one_of(st.integers(-5, 50), st.sampled_from([0, 1, 2.5, -0.0, 0.0, 1.0, 2.0, -1.0, 1e21, 10**20, 1e2, 100]))),
         st.just({"k": "none"}),
         st.just({"k": "html", "s": "<i>h</i>"}),
@@ -447,6 +448,16 @@ def body_is_child(case, note):
         check(h.is_tag_child(obj), "is_tag_child rejects a value that TagList() accepts", repr(obj)[:80], type(obj).__name__)
         for c in all_children(obj, []):
             check(h.is_tag_child(c), "is_tag_child rejects a nested value that TagList() accepts", repr(c)[:80], type(c).__name__)
+    # booleans: whatever the child operations do with them, is_tag_child must not be stricter
+    for bval in (True, False):
+        for wrap_ in (lambda x: x, lambda x: [x], lambda x: (None, [x])):
+            try:
+                h.TagList(wrap_(bval))
+                ok_b = True
+            except TypeError:
+                ok_b = False
+            if ok_b:
+                check(h.is_tag_child(wrap_(bval)) and h.is_tag_child(bval), "is_tag_child rejects a boolean that TagList() accepts", bval)
     kinds = set()
 
     def walk(r):
